@@ -272,6 +272,11 @@ func skipFactAllowed(f Fact, fn *ssa.Function) string {
 	if cl, ok := f.V.(*ssa.Call); ok && commonName(&cl.Call) == "strings.HasPrefix" && !f.T {
 		return "key without the endpoint prefix"
 	}
+	if ex, ok := f.V.(*ssa.Extract); ok && ex.Index == 1 && !f.T {
+		if cl, ok := ex.Tuple.(*ssa.Call); ok && commonName(&cl.Call) == "strings.CutPrefix" {
+			return "key without the endpoint prefix"
+		}
+	}
 	// err != nil from Atoi
 	if cmpFact(f, token.NEQ, func(v ssa.Value) bool {
 		ex, ok := v.(*ssa.Extract)
@@ -595,10 +600,29 @@ func c04R6(c *Ctx) {
 		return
 	}
 	c.floor("C04.R6", 5)
-	isLocalNode := func(v ssa.Value) bool {
+	var isLocalNode func(v ssa.Value) bool
+	isLocalNode = func(v ssa.Value) bool {
 		v = strip(v)
 		if ex, ok := v.(*ssa.Extract); ok && ex.Index == 0 {
 			v = ex.Tuple
+		}
+		// an accessor helper all of whose returns are nodes[localID]
+		if cl, ok := v.(*ssa.Call); ok {
+			sc := cl.Call.StaticCallee()
+			if sc == nil || !inModule(sc) || sc.Blocks == nil || len(sc.Params) != 1 {
+				return false
+			}
+			rets := returnsOf(sc)
+			if len(rets) == 0 {
+				return false
+			}
+			for _, r := range rets {
+				rv := returnValues(r)
+				if len(rv) != 1 || !isLocalNode(rv[0]) {
+					return false
+				}
+			}
+			return true
 		}
 		lk, ok := v.(*ssa.Lookup)
 		if !ok {
@@ -671,7 +695,7 @@ func c04Effects(c *Ctx) {
 	if a == nil {
 		return
 	}
-	c.floor("C04.R10", 7)
+	c.floor("C04.R10", 5)
 	type spec struct {
 		fn   string
 		what string
@@ -706,7 +730,7 @@ func c04Effects(c *Ctx) {
 			_, ok = loadedField(cl.Call.Args[0], a.nodesF)
 			return ok && strip(cl.Call.Args[1]) == param(fn, "id")
 		}},
-		{"State.updateRemoteEndpointLocked", "Endpoints[endpointID] = listeners", func(fn *ssa.Function, i ssa.Instruction) bool {
+		{"State.UpdateRemoteEndpoint", "Endpoints[endpointID] = listeners", func(fn *ssa.Function, i ssa.Instruction) bool {
 			mu, ok := i.(*ssa.MapUpdate)
 			if !ok {
 				return false
@@ -714,7 +738,7 @@ func c04Effects(c *Ctx) {
 			_, ok = loadedField(mu.Map, a.nEndpts)
 			return ok && strip(mu.Key) == param(fn, "endpointID") && strip(mu.Value) == param(fn, "listeners")
 		}},
-		{"State.removeRemoteEndpointLocked", "delete(Endpoints, endpointID)", func(fn *ssa.Function, i ssa.Instruction) bool {
+		{"State.RemoveRemoteEndpoint", "delete(Endpoints, endpointID)", func(fn *ssa.Function, i ssa.Instruction) bool {
 			cl, ok := i.(*ssa.Call)
 			if !ok {
 				return false
@@ -727,82 +751,108 @@ func c04Effects(c *Ctx) {
 			return ok && strip(cl.Call.Args[1]) == param(fn, "endpointID")
 		}},
 	}
+	nilMapExcuse := func(f Fact) bool {
+		return cmpFact(f, token.EQL, func(v ssa.Value) bool { _, ok := loadedField(v, a.nEndpts); return ok }, isNilConst)
+	}
 	for _, sp := range specs {
-		fn := p.Func(clPkg, sp.fn)
-		if fn == nil {
+		top := p.Func(clPkg, sp.fn)
+		if top == nil {
 			c.fail("C04.R10", "anchor/"+sp.fn, token.NoPos, "mutator not found")
 			continue
 		}
-		c.analysed(fnName(fn))
-		fs := computeFacts(fn)
-		var writes []ssa.Instruction
-		allInstrs(fn, func(i ssa.Instruction) {
-			if sp.is(fn, i) {
-				writes = append(writes, i)
-			}
-		})
-		bad := ""
-		nTrue := 0
-		for _, r := range returnsOf(fn) {
-			rv := returnValues(r)
-			if b, ok := constBool(rv[0]); !ok || !b {
-				continue
-			}
-			nTrue++
-			if reachSkipping(fn, fs, r, writes, func(f Fact) bool {
-				return cmpFact(f, token.EQL, func(v ssa.Value) bool { _, ok := loadedField(v, a.nEndpts); return ok }, isNilConst)
-			}) {
-				bad = "success is reported at " + p.pos(r.Pos()) + " on a path that did not perform `" + sp.what + "`"
-			}
-		}
-		if len(writes) == 0 {
-			bad = "the write `" + sp.what + "` is missing"
-		}
-		c.check(bad == "" && nTrue > 0, "C04.R10", fnName(fn)+"/success-means-written", fn.Pos(), "`"+sp.what+"` happens on every path that reports success", bad+": the syncer believes the routing table followed gossip while it did not")
-	}
-	// the exported wrappers report exactly what their locked helper reported
-	for _, w := range []struct{ fn, helper string }{{"State.UpdateRemoteEndpoint", "State).updateRemoteEndpointLocked"}, {"State.RemoveRemoteEndpoint", "State).removeRemoteEndpointLocked"}} {
-		fn := p.Func(clPkg, w.fn)
-		if fn == nil {
-			c.fail("C04.R10", "anchor/"+w.fn, token.NoPos, "not found")
-			continue
-		}
-		fs := computeFacts(fn)
-		var helper *ssa.Call
-		allInstrs(fn, func(i ssa.Instruction) {
-			if cl, ok := i.(*ssa.Call); ok && strings.HasSuffix(commonName(&cl.Call), w.helper) {
-				helper = cl
-			}
-		})
-		bad := ""
-		if helper == nil {
-			bad = "the locked helper is not called"
-		} else {
-			// arguments forwarded unchanged
-			_, args := recvAndArgs(&helper.Call)
-			for k, a := range args {
-				if k+1 >= len(fn.Params) || strip(a) != ssa.Value(fn.Params[k+1]) {
-					bad = "the helper is not called with the wrapper's own arguments"
+		c.analysed(fnName(top))
+		nWrites := 0
+		// successOK: every `true` that fn can report was preceded by the write, in fn itself or in a helper of the
+		// same receiver whose own `true` means written and whose result fn has tested.
+		var successOK func(fn *ssa.Function, depth int) (bool, string, int)
+		successOK = func(fn *ssa.Function, depth int) (bool, string, int) {
+			fs := computeFacts(fn)
+			var writes []ssa.Instruction
+			allInstrs(fn, func(i ssa.Instruction) {
+				if sp.is(fn, i) {
+					writes = append(writes, i)
 				}
+			})
+			nWrites += len(writes)
+			type hcall struct {
+				call *ssa.Call
+				ok   bool
 			}
+			var helpers []hcall
+			if depth < 2 {
+				allInstrs(fn, func(i ssa.Instruction) {
+					cl, ok := i.(*ssa.Call)
+					if !ok || cl.Call.IsInvoke() {
+						return
+					}
+					sc := cl.Call.StaticCallee()
+					if sc == nil || sc == fn || sc.Signature.Recv() == nil || fn.Signature.Recv() == nil || !types.Identical(sc.Signature.Recv().Type(), fn.Signature.Recv().Type()) {
+						return
+					}
+					res := sc.Signature.Results()
+					if res.Len() != 1 || !types.Identical(res.At(0).Type(), types.Typ[types.Bool]) {
+						return
+					}
+					good, _, _ := successOK(sc, depth+1)
+					helpers = append(helpers, hcall{cl, good})
+				})
+			}
+			nTrue := 0
 			for _, r := range returnsOf(fn) {
 				rv := returnValues(r)
 				if len(rv) == 0 {
 					continue
 				}
+				facts := fs.At(r.Block())
 				b, isK := constBool(rv[0])
 				if !isK {
-					if strip(rv[0]) != ssa.Value(helper) {
-						bad = "returns something other than the helper's result at " + p.pos(r.Pos())
+					tied := false
+					for _, h := range helpers {
+						if strip(rv[0]) == ssa.Value(h.call) && h.ok {
+							tied = true
+						}
+					}
+					if !tied {
+						return false, "returns a value at " + p.pos(r.Pos()) + " that is not the result of a helper whose success means written", nTrue
+					}
+					nTrue++
+					continue
+				}
+				helperSaid := func(want bool) bool {
+					for _, h := range helpers {
+						if h.ok && anyFact(facts, func(f Fact) bool { return f.V == ssa.Value(h.call) && f.T == want }) {
+							return true
+						}
+					}
+					return false
+				}
+				if !b {
+					if helperSaid(true) {
+						return false, "reports failure at " + p.pos(r.Pos()) + " although its helper reported that the table was updated", nTrue
 					}
 					continue
 				}
-				if !anyFact(fs.At(r.Block()), func(f Fact) bool { return f.V == ssa.Value(helper) && f.T == b }) {
-					bad = fmt.Sprintf("returns %v at %s without the helper having reported %v", b, p.pos(r.Pos()), b)
+				nTrue++
+				if helperSaid(false) {
+					return false, "reports success at " + p.pos(r.Pos()) + " although its helper reported that nothing was updated", nTrue
+				}
+				if helperSaid(true) {
+					continue
+				}
+				if len(writes) == 0 || reachSkipping(fn, fs, r, writes, nilMapExcuse) {
+					return false, "success is reported at " + p.pos(r.Pos()) + " on a path that did not perform `" + sp.what + "`", nTrue
 				}
 			}
+			return true, "", nTrue
 		}
-		c.check(bad == "", "C04.R10", fnName(fn)+"/reports-helper-result", fn.Pos(), "true exactly when the table was updated", bad+": the syncer applies the change to the wrong place (table vs pending node)")
+		good, bad, nTrue := successOK(top, 0)
+		if good && nWrites == 0 {
+			good, bad = false, "the write `"+sp.what+"` is missing"
+		}
+		if good && nTrue == 0 {
+			good, bad = false, "the mutator never reports success"
+		}
+		c.check(good, "C04.R10", fnName(top)+"/success-means-written", top.Pos(), "`"+sp.what+"` happens on every path that reports success (in the mutator or the locked helper it tests)", bad+": the syncer believes the routing table followed gossip while it did not, or applies the change to the wrong place")
 	}
 	// lookups and sweeps over the routing table visit every node
 	loopsComplete(c, "C04.R11", methodsOf(p, clPkg, "State"), 3)
@@ -1046,8 +1096,12 @@ func c04PendingRules(c *Ctx) {
 					}
 					// key == "proxy_addr" together with HasPrefix(key, "endpoint:") cannot happen
 					if anyFact(pa.facts, func(f Fact) bool {
-						cl, ok := f.V.(*ssa.Call)
-						if !ok || !f.T || commonName(&cl.Call) != "strings.HasPrefix" || strip(cl.Call.Args[0]) != keyP {
+						v := f.V
+						if ex, ok := v.(*ssa.Extract); ok && ex.Index == 1 {
+							v = ex.Tuple
+						}
+						cl, ok := v.(*ssa.Call)
+						if !ok || !f.T || (commonName(&cl.Call) != "strings.HasPrefix" && commonName(&cl.Call) != "strings.CutPrefix") || strip(cl.Call.Args[0]) != keyP {
 							return false
 						}
 						pre, ok := constString(cl.Call.Args[1])
